@@ -48,7 +48,9 @@ EVAL = {
         "unl": (np.array([[0.3], [3.2]]), np.array([-1, 1])),
     },
 }
-OPS = [(k, n) for k in ("call", "test") for n in ("in", "part", "out", "unl")]
+# "own": the classifier's own testing part handed back as it is returned (already under the learning scaling);
+# "own_reverted": the same DataSet after revert_scaling() (raw again)
+OPS = [(k, n) for k in ("call", "test") for n in ("in", "part", "out", "unl", "own", "own_reverted")]
 OBSERVED = []      # what the implementation returned in the current case (classes / summaries), for the outcome fingerprint
 
 
@@ -86,8 +88,8 @@ def _reference_density(combi, op, pts):
     return out
 
 
-def _expected(cl, lo, fac, Xd, yd):
-    sc = (Xd - lo) * fac + 0.005
+def _expected(cl, lo, fac, Xd, yd, prescaled=False):
+    sc = np.array(Xd, dtype=float) if prescaled else (Xd - lo) * fac + 0.005
     inr = np.array([not (any(v < 0.0049 for v in r) or any(v > 0.9951 for v in r)) for r in sc])
     scin = sc[inr]
     classifiers, ops = cl.get_density_estimation_results()
@@ -133,9 +135,20 @@ def _run_sequence_inner(c, seq):
     if L.size and (np.min(L) < 0.0049 or np.max(L) > 0.9951):
         issues.append(("learning_data_scaled_into_range", "learning data range [%r,%r]" % (float(np.min(L)), float(np.max(L)))))
     for si, (kind, name) in enumerate(steps):
-        Xd, yd = EVAL[c["data"]][name]
-        sc, inr, scin, expc, tie = _expected(cl, lo, fac, Xd, yd)
-        ds = DataSet((Xd.copy(), yd.copy()), name=name)
+        if name.startswith("own"):
+            ds = cl.get_testing_data()
+            if ds.is_empty():
+                continue
+            if name == "own_reverted":
+                ds.revert_scaling()
+            Xd, yd = np.array(ds.get_data()[0], dtype=float), np.array(ds.get_data()[1])
+            sc, inr, scin, expc, tie = _expected(cl, lo, fac, Xd, yd, prescaled=(name == "own"))
+            if not inr.all():
+                issues.append(("own_testing_data_in_range", "step %d %s/%s: %d of the classifier's own testing samples are outside the learned range" % (si, kind, name, int((~inr).sum()))))
+        else:
+            Xd, yd = EVAL[c["data"]][name]
+            sc, inr, scin, expc, tie = _expected(cl, lo, fac, Xd, yd)
+            ds = DataSet((Xd.copy(), yd.copy()), name=name)
         try:
             out = cl(ds, print_removed=False) if kind == "call" else cl.test_data(ds, print_output=False, print_removed=False)
             raised = False
@@ -260,7 +273,7 @@ def main(ctx):
                   "alphabet": [list(o) for o in OPS]}
     return ctx.finish(
         rule="one case = learning configuration x first operation; inside it ALL call sequences of the stated depth over {__call__, "
-             "test_data} x {inside, partly outside, entirely outside, with unlabelled} are executed on freshly learned objects and the "
+             "test_data} x {inside, partly outside, entirely outside, with unlabelled, the classifier's own testing part as returned, the same reverted} are executed on freshly learned objects and the "
              "first evaluation is repeated at the end (evaluations = sequences)",
         assumptions=["the expected class uses reference densities computed from the stored surpluses with independently evaluated hats, under "
                      "the scaling fixed at learning time; the library's own density at the same points must agree with them; samples whose two best densities are within 1e-9 are treated as ties (either class accepted)",
